@@ -8,9 +8,10 @@ use parking_lot::RwLock;
 use scc::HashMap;
 #[cfg(feoxdb_verif)]
 use crate::verif::atomics::AtomicU64;
-#[cfg(not(feoxdb_verif))]
-use std::sync::atomic::AtomicU64;
+#[cfg(feoxdb_verif)]
 use std::sync::atomic::{AtomicUsize, Ordering};
+#[cfg(not(feoxdb_verif))]
+use std::sync::atomic::{AtomicU64, AtomicUsize, Ordering};
 use std::sync::Arc;
 
 use crate::core::record::{Record, TreeSlot};
